@@ -1019,6 +1019,63 @@ fn c12_sizing(s: &mut Sink, g: &mut u64) {
         }
         s.done("every sizing unit repeated to fill 1000000 instruction slots");
     }
+    // jit_compile / cranelift_compile called again and again on one VM object, no set_program in
+    // between: each call is a compilation of its own (a buffer reused across calls must be reset)
+    {
+        let idx = *g;
+        *g += 1;
+        if s.take(idx) {
+            let mut nn = 0;
+            for (uname, unit) in sizing_units() {
+                for len in [1usize, 60, 200, 450, 700, 1400, 3000] {
+                    let mut prog: Vec<I> = vec![isa::mov64i(0, 0), isa::mov64i(7, 3), isa::mov64i(8, 1000), isa::mov64i(9, 7), isa::mov64i(3, 50), isa::mov64i(4, 3)];
+                    for _ in 0..len {
+                        prog.extend(unit.iter());
+                    }
+                    prog.push(isa::mov64i(0, 5));
+                    prog.push(isa::EXIT);
+                    let bytes = isa::enc(&prog);
+                    for eng in [Eng::Jit, Eng::Cl] {
+                        if eng == Eng::Cl && len > 700 {
+                            continue;
+                        }
+                        nn += 1;
+                        s.count("traces_validated_against_impl", 1);
+                        let b2 = bytes.clone();
+                        let end = in_child(120, move || {
+                            let r = catch(|| {
+                                let mut vm = AnyVm::new(VmKind::NoData, Some(&b2)).map_err(|e| format!("load: {e}"))?;
+                                vm.register_helper(1, h1)?;
+                                let mut outs = vec![];
+                                for _ in 0..6 {
+                                    vm.compile(eng)?;
+                                    outs.push(vm.exec(eng, vm::empty_raw(), vm::empty_raw())?);
+                                }
+                                Ok::<_, String>(outs)
+                            });
+                            format!("{r:?}").into_bytes()
+                        });
+                        let rp = json!({"kind":"none"});
+                        match end {
+                            ChildEnd::Ok(b) => {
+                                let t = String::from_utf8_lossy(&b).to_string();
+                                if t != "Ok(Ok([5, 5, 5, 5, 5, 5]))" && !t.starts_with("Ok(Err(") {
+                                    s.violation(&format!("{}/recompile-same-vm/{}", eng.name(), if t.starts_with("Err") { panic_class(&t) } else { "value-mismatch".to_string() }), format!("{len} x {uname}: six compilations of one VM object: {t}"), rp);
+                                } else if t.starts_with("Ok(Err(") && !t.contains("load") {
+                                    s.outcome("compile-err (an error value: allowed by C12)", 1);
+                                }
+                            }
+                            ChildEnd::Signal(sig) => s.violation(&format!("{}/recompile-same-vm/crash:{}", eng.name(), signame(sig)), format!("{len} x {uname}: died with {}", signame(sig)), rp),
+                            ChildEnd::Exit(c) => s.violation(&format!("{}/recompile-same-vm/child-exit:{c}", eng.name()), format!("{len} x {uname}"), rp),
+                        }
+                    }
+                }
+            }
+            s.count("evaluations", nn);
+            s.count("states", nn);
+            s.done("six compilations in a row of one VM object, 7 sizes x 8 instruction kinds");
+        }
+    }
     // a helper that lives below 2^31 (a trampoline in MAP_32BIT memory): a compiler that picks the
     // form of the call from the distance between code buffer and helper sees another distance in
     // its sizing pass than in its emitting pass
